@@ -10,7 +10,7 @@ import (
 )
 
 func init() {
-	register("C19", "capability dialogues driven through the real internal handlers: wanted subsets of {a,c,t,userhost-in-names} x advertised subsets of {a,t,d,sasl,userhost-in-names} (names sorting before and after sasl; ACKs in request order and reversed) x SASL in {none, PLAIN, EXTERNAL(empty / non-empty identity)} x server reply in {ACK all, ACK part, ACK with a later -cap, NAK} x outcome in {903,904,908} - enumerated exhaustively - plus random sets of 40-300 capabilities that force the REQ to be split; every reply and SupportsCapability/HasCapability are compared with the model and judged by Spec.Caps; non-trivial = the intersection is non-empty; distinct by dialogue", c19)
+	register("C19", "capability dialogues driven through the real internal handlers: wanted subsets of {a,c,t,userhost-in-names} x advertised subsets of {a,t,d,sasl,userhost-in-names} (names sorting before and after sasl; ACKs in request order and reversed) x SASL in {none, PLAIN, EXTERNAL(empty / non-empty identity)} x server reply in {ACK all, ACK part, ACK with a later -cap, NAK} x outcome in {903,904,908} - enumerated exhaustively - plus multi-line LS dialogues (the same client answering 2-3 LS lines that advertise different sets), plus random sets of 40-300 capabilities that force the REQ to be split; every reply and SupportsCapability/HasCapability are compared with the model and judged by Spec.Caps; non-trivial = the intersection is non-empty; distinct by dialogue", c19)
 }
 
 func subsets(xs []string) [][]string {
@@ -53,7 +53,7 @@ func (d *dialogue) raw(line string, spec ...string) string {
 	return rep
 }
 
-func capDialogue(wanted, adv []string, saslKind int, reply int, outcome string) Case {
+func capDialogue(wanted, adv []string, saslKind int, reply int, outcome string, prelude ...[]string) Case {
 	p := rigParams{nick: "me", ident: "id", name: "Real", version: "v", quit: "q", split: 450, capNeg: true, caps: wanted, sasl: "none", newNick: "default"}
 	switch saslKind {
 	case 1:
@@ -81,8 +81,17 @@ func capDialogue(wanted, adv []string, saslKind int, reply int, outcome string) 
 	d.cs.Reqs = append(d.cs.Reqs, "cl in line tags=nil nick=- ident=- host=- src=- cmd="+drv.H("REGISTER")+" raw=- args=_",
 		fmt.Sprintf("?spec18reg 1 - %s %s %s %s", drv.H("me"), drv.H("id"), drv.H("Real"), outOf(reg)))
 	d.cs.Impl = append(d.cs.Impl, reg, "")
+	// earlier lines of a multi-line LS (CAP * LS * :...): every line is answered with wanted ∩ everything advertised on this connection so far
+	// (and with nothing that was never advertised)
+	var sofar []string // what the server has advertised on this connection so far (the client accumulates it)
+	for _, pre := range prelude {
+		sofar = dedup(append(sofar, pre...))
+		d.raw(":irc.test CAP * LS * :"+strings.Join(pre, " "), fmt.Sprintf("spec19ls %s %s %s {out}", drv.L(wanted), hasSasl, drv.L(sofar)))
+	}
+	lsAdv := adv
+	adv = dedup(append(sofar, adv...))
 	// LS
-	rep := d.raw(":irc.test CAP * LS :"+strings.Join(adv, " "), fmt.Sprintf("spec19ls %s %s %s {out}", drv.L(wanted), hasSasl, drv.L(adv)))
+	rep := d.raw(":irc.test CAP * LS :"+strings.Join(lsAdv, " "), fmt.Sprintf("spec19ls %s %s %s {out}", drv.L(wanted), hasSasl, drv.L(adv)))
 	req, _ := drv.UnL(outOf(rep))
 	var requested []string
 	for _, l := range req {
@@ -137,8 +146,14 @@ func capDialogue(wanted, adv []string, saslKind int, reply int, outcome string) 
 		}
 	}
 	d.cs.Desc = fmt.Sprintf("cap dialogue wanted=%v advertised=%s sasl=%d reply=%d outcome=%s", wanted, trunc(strings.Join(adv, " "), 60), saslKind, reply, outcome)
+	if len(prelude) > 0 {
+		d.cs.Desc += fmt.Sprintf(" after earlier LS lines %v", prelude)
+		if d.cs.Tag != "" {
+			d.cs.Tag += "/multi-line-LS"
+		}
+	}
 	d.cs.Key = d.cs.Desc
-	d.cs.Replay = map[string]interface{}{"op": "cap-dialogue", "wanted": wanted, "advertised": adv, "sasl": p.sasl, "reply": reply, "outcome": outcome}
+	d.cs.Replay = map[string]interface{}{"op": "cap-dialogue", "wanted": wanted, "advertised": adv, "sasl": p.sasl, "reply": reply, "outcome": outcome, "earlier_ls_lines": prelude}
 	return d.cs
 }
 
@@ -160,6 +175,17 @@ func c19(c *Ctx) {
 					}
 				}
 			}
+		}
+	}
+	// the same client negotiating more than once: a multi-line LS whose lines advertise different sets
+	all := subsets([]string{"a", "t", "d", "sasl", "userhost-in-names"})
+	for _, w := range subsets([]string{"a", "c", "t", "userhost-in-names"}) {
+		for i := 0; i < c.Pick(6, 40); i++ {
+			pre := [][]string{all[c.R.N(len(all))]}
+			if c.R.P(1, 3) {
+				pre = append(pre, all[c.R.N(len(all))])
+			}
+			cases = append(cases, capDialogue(w, all[c.R.N(len(all))], c.R.N(5), c.R.N(4), c.R.Pick("903", "904", "908"), pre...))
 		}
 	}
 	for i := 0; i < c.Pick(40, 600); i++ {
